@@ -218,6 +218,36 @@ partial def loop (inp : IO.FS.Stream) (out : IO.FS.Stream) (st : DState) : IO Un
       | .error e =>
         out.putStrLn s!"res err:{errClass e}"
         loop inp out { st with img := none }
+    | "mkimg" =>
+      -- the independent encoder: build an image from an explicit description and write it out
+      let n := kv.nat "n"
+      let mut rds : List RawDesc := []
+      let mut datas : List (Int × Bytes) := []
+      for _ in [0:n] do
+        let l ← inp.getLine
+        let t := (l.trimAscii.toString.splitOn " ").filter (· != "")
+        let k := parseKV (t.drop 1)
+        let d : RawDesc :=
+          { dtype := k.int "dt", used := k.get "used" == "1", id := k.nat "id", gid := k.nat "gid",
+            link := k.nat "link", off := k.int "off", size := k.int "size", sizePad := k.int "sizepad",
+            ctime := k.int "ct", mtime := k.int "mt", uid := k.int "uid", gidOwner := k.int "gidown",
+            name := pad 128 (k.bytes "name"), extra := pad 384 (k.bytes "extra") }
+        rds := rds ++ [d]
+        if k.has "data" then datas := datas ++ [(d.off, parseData (k.get "data"))]
+      let h : Hdr :=
+        { launch := pad 32 (kv.bytes "launch"), magic := pad 10 (kv.bytes "magic"),
+          version := pad 3 (kv.bytes "version"), arch := pad 3 (kv.bytes "arch"), id := pad 16 (kv.bytes "id"),
+          ctime := kv.int "ct", mtime := kv.int "mt", dfree := kv.int "dfree", dtotal := kv.int "dtotal",
+          doff := kv.int "doff", dsize := kv.int "dsize", dataOff := kv.int "dataoff",
+          dataSize := kv.int "datasize" }
+      let mut buf : Bytes := writeAt (writeAt [] h.doff.toNat (encTable rds)) 0 (encHdr h)
+      for (off, b) in datas do
+        buf := writeAt buf off.toNat b
+      let flen := kv.nat "flen"
+      if flen > buf.length then buf := buf ++ zeros (flen - buf.length)
+      IO.FS.writeBinFile (kv.get "path") (ByteArray.mk buf.toArray)
+      out.putStrLn "made"
+      loop inp out st
     | "obs" =>
       match st.img with
       | none => out.putStrLn "noimg"
